@@ -60,6 +60,10 @@ static inline struct TwoParticleGF *GF2Ptr_mul(GF2Ptr *s)
 //@struct Pomerol::ElementWithPermFreq<Pomerol::TwoParticleGF>
 
 //@tu src/pomerol/Index.cpp
+/* twins for the other spelling of an increment (`++it` for `it++` and vice versa): same effect.  X_inc yields the iterator after the step
+ * (exact); X_postinc made from X_inc is void, so a use of its value does not compile (UNDECIDED) instead of being modelled wrongly */
+#define EMapIt_inc(it_) (EMapIt_postinc(it_), (it_))      /* pre-increment: the iterator itself, after the step */
+#define ISetIt_inc(it_) (ISetIt_postinc(it_), (it_))      /* pre-increment: the iterator itself, after the step */
 //@function Pomerol::IndexCombination4::IndexCombination4(unsigned int, unsigned int, unsigned int, unsigned int) as IC4_ctor4
 //@end
 //@function Pomerol::IndexCombination4::operator<(Pomerol::IndexCombination4 const&) const as IC4_lt
